@@ -41,6 +41,7 @@ type FrResult struct {
 	order   []M // read / recv events in the order the hooks saw them
 	exited  bool
 	panicked bool
+	stuck    bool // the gateway did not go on although the client had sent a whole segment
 }
 
 // runFraming executes one segmentation and returns what the gateway did.
@@ -182,7 +183,13 @@ func (i *Inst) runFraming(f *FrScript, rng *rand.Rand, segmented bool) (stream [
 			}
 			ok, gone := consumed(mark, len(pk))
 			if !ok {
-				return stream, res, fmt.Errorf("gateway did not consume a fragmented message (%s)", diag(mark))
+				if !p.Alive() {
+					return stream, res, fmt.Errorf("gateway did not consume a fragmented message (%s)", diag(mark))
+				}
+				// the gateway sits on bytes the client has sent and does not go on: the client stops here and closes;
+				// the packets that were not processed show in the comparison with the unsegmented run
+				res.stuck = true
+				break
 			}
 			if gone {
 				exited = true
@@ -212,7 +219,11 @@ func (i *Inst) runFraming(f *FrScript, rng *rand.Rand, segmented bool) (stream [
 			}
 			ok, gone := consumed(mark, len(sg))
 			if !ok {
-				return stream, res, fmt.Errorf("gateway did not consume a segment of %d bytes (%s)", len(sg), diag(mark))
+				if !p.Alive() {
+					return stream, res, fmt.Errorf("gateway did not consume a segment of %d bytes (%s)", len(sg), diag(mark))
+				}
+				res.stuck = true
+				break
 			}
 			if gone {
 				exited = true
@@ -297,7 +308,7 @@ func (i *Inst) RunFraming(f *FrScript, tw *TraceWriter, rng *rand.Rand, refs map
 	panicked := res.panicked
 	_ = faults0
 	tw.Line(M{"ev": "end", "mode": f.Mode, "transport": f.Transport, "resps": nn(res.resps), "refresps": nn(ref.resps), "backend": res.backend, "refbackend": ref.backend, "k": len(res.recvs), "refk": len(ref.recvs),
-		"exited": res.exited, "panicked": panicked, "nreads": len(res.reads)})
+		"exited": res.exited, "panicked": panicked, "nreads": len(res.reads), "stuck": res.stuck})
 	return nil
 }
 
